@@ -271,11 +271,15 @@ type NilAnalysis struct {
 	nowe    map[string]bool
 	P       *Prog
 	summary map[*types.Func]*nilSummary
+	stack   []*types.Func // functions whose summary is being computed, innermost last
 }
 
 type nilSummary struct {
-	done     bool
-	neverNil []bool // per result index
+	done bool
+	// assumed: while the summary was computed, a direct self-call was taken to return non-nil;
+	// pess: that assumption failed, self-calls count as possibly nil
+	assumed, pess bool
+	neverNil      []bool // per result index
 	// result i is nil only if parameter paramNil[i] is nil (-1: n/a)
 	paramNil []int
 }
@@ -303,13 +307,21 @@ func (na *NilAnalysis) resultNeverNil(fn *types.Func, idx int) (never bool, para
 		return false, -1
 	}
 	s := na.summary[fn]
-	if s == nil {
+	if s != nil && !s.done && !s.pess && len(na.stack) > 0 && na.stack[len(na.stack)-1] == fn {
+		// a direct self-call met while fn's own returns are being classified: if every other return
+		// is non-nil, so is the recursive one whenever it returns (checked after the pass)
+		s.assumed = true
+		return true, -1
+	}
+	for pass := 0; s == nil || (pass == 1 && s.pess && !s.done); pass++ {
 		sig := fn.Type().(*types.Signature)
-		s = &nilSummary{neverNil: make([]bool, sig.Results().Len()), paramNil: make([]int, sig.Results().Len())}
+		pess := s != nil && s.pess
+		s = &nilSummary{neverNil: make([]bool, sig.Results().Len()), paramNil: make([]int, sig.Results().Len()), pess: pess}
 		for i := range s.paramNil {
 			s.paramNil[i] = -1
 		}
-		na.summary[fn] = s // provisional (recursion => pessimistic false)
+		na.summary[fn] = s // provisional (mutual recursion => pessimistic false)
+		na.stack = append(na.stack, fn)
 		fd := na.P.declByObj[fn]
 		if fd != nil && fd.Body != nil {
 			info := na.P.InfoFor(fn.Pkg())
@@ -378,6 +390,20 @@ func (na *NilAnalysis) resultNeverNil(fn *types.Func, idx int) (never bool, para
 				if !all && okParam && pidx >= 0 {
 					s.paramNil[i] = pidx
 				}
+			}
+		}
+		na.stack = na.stack[:len(na.stack)-1]
+		if s.assumed && !s.pess {
+			ok := true
+			for _, v := range s.neverNil {
+				if !v {
+					ok = false
+				}
+			}
+			if !ok {
+				// the optimistic reading of the self-calls did not hold: once more, pessimistically
+				s.pess = true
+				continue
 			}
 		}
 		s.done = true
